@@ -1,9 +1,10 @@
 ------------------------------- MODULE Cadence -------------------------------
 (***************************************************************************)
 (* Background polls happen once per configured interval within +/-10 %     *)
-(* (C11): the poller draws ONE jittered period T in [0.9 I, 1.1 I) when it  *)
-(* starts and then polls at T, 2T, 3T, ... (a poll that is still running    *)
-(* when the next tick is due makes that tick late, never early or doubled). *)
+(* (C11): consecutive polls are between 0.9 I and 1.1 I apart (the code     *)
+(* draws one jittered period when it starts; the property fixes only the    *)
+(* band), also when the service is slow: the next poll is due one period    *)
+(* after the previous one STARTED.                                          *)
 (* trace.ndjson: per store a "start" line with the interval, then one       *)
 (* "poll" line per round with the virtual time of its first request.        *)
 (***************************************************************************)
@@ -17,10 +18,8 @@ Start ==
 Poll ==
   /\ l <= Len(Trace) /\ Trace[l].ev = "poll"
   /\ LET d == Trace[l].t - last IN
-     IF period = 0
-     THEN /\ 9 * interval <= 10 * d /\ 10 * d < 11 * interval     \* the first period fixes T within +/-10 %
-          /\ period' = d
-     ELSE /\ d \in {period - 1, period, period + 1} /\ UNCHANGED period  \* every later round one period later (times are logged in whole ms)
+     /\ 9 * interval <= 10 * (d + 1) /\ 10 * (d - 1) <= 11 * interval    \* every period within +/-10 % of the interval (times are whole ms)
+     /\ period' = d
   /\ last' = Trace[l].t /\ l' = l + 1 /\ UNCHANGED interval
 Next == Start \/ Poll
 Accepted == PrintT(<<"HW", TLCGet("stats").diameter>>) /\ TLCGet("stats").diameter = Len(Trace) + 1
